@@ -228,11 +228,11 @@ func runC15(r *vk.Run) {
 	}
 	r.SetRule("generated log results (0..40 containers, well above the 7-colour palette; several streams per container; 0..6 entries each; equal timestamps within and across containers; messages with embedded/trailing CR/LF, NUL, invalid UTF-8; a stream without container label) " +
 		"rendered by renderResult under all 8 combinations of timestamp/container/colour; the output is consumed against the multiset of expected records `[name ][RFC3339Nano ]message-without-trailing-CR/LF\\n` in an order consistent with timestamps; colour off => no ESC byte; " +
-		"colour on => name wrapped in SGR sequences, one colour per container. A panic inside renderResult is a violation. non-trivial = distinct (result, options) with >=2 entries.")
+		"colour on => name wrapped in SGR sequences, one colour per container. A panic inside renderResult is a violation. non-trivial = distinct results with >=2 entries (each rendered under all 8 option combinations).")
 	r.Assume("messages contain no ESC byte (so any ESC in the output comes from the renderer)", "which palette colour a container gets is not asserted, only that it is an SGR sequence and stable per container", "the timestamp may additionally be wrapped in SGR sequences when colour is on")
 	r.SetExhaustive(true)
 
-	r.Phase("render", r.N(2000, 60000), func(c *vk.Case) {
+	r.Phase("render", r.N(2000, 1500000), func(c *vk.Case) {
 		rng := c.Rng
 		maxC := vk.Pick(rng, []int{0, 1, 3, 6, 7, 8, 9, 12, 40})
 		streams := genRenderData(rng, maxC)
@@ -296,9 +296,9 @@ func runC15(r *vk.Run) {
 			}
 			c.Count("renders", 1)
 			c.Seen("option_combinations", fmt.Sprintf("ts=%v,name=%v,color=%v", showTS, showName, color))
-			if len(all) >= 2 {
-				c.Nontrivial(fmt.Sprintf("%d|%d", c.Idx, opt))
-			}
+		}
+		if len(all) >= 2 {
+			c.Nontrivial(fmt.Sprintf("%d", c.Idx))
 		}
 		c.Max("containers", int64(len(names)))
 		for _, n := range tsCount {
@@ -313,7 +313,7 @@ func runC15(r *vk.Run) {
 		}
 	})
 	// end to end: the plugin binary with its real flags against the fake daemon, 12 containers
-	r.Phase("e2e", r.N(16, 160), func(c *vk.Case) {
+	r.Phase("e2e", r.N(16, 1600), func(c *vk.Case) {
 		rng := c.Rng
 		nc := vk.Pick(rng, []int{1, 7, 8, 12})
 		var inv []CSpec
